@@ -470,7 +470,7 @@ fn fam_far(ctx: &CaseCtx, cov: &mut Cov) -> CaseOut {
     let mut rng = ctx.rng();
     let log = match ctx.tier {
         Tier::Quick => 20 + (ctx.index % 3) as u32,       // up to 2^22
-        Tier::Thorough => 22 + (ctx.index % 5) as u32,    // up to 2^26
+        Tier::Thorough => if ctx.index == 0 { 28 } else { 22 + (ctx.index % 5) as u32 }, // one 2^28 case, else up to 2^26
     };
     let span: u64 = 1 << log;
     let props = random_props(&mut rng);
@@ -571,7 +571,7 @@ pub fn monitor(tier: Tier) -> Monitor {
             "ground truth is interpret(program): plain copying in an unbounded Vec".into(),
             "the reference encoder is cross-validated against system liblzma 5.4.x at the start of every run (self-check) and per case when lc+lp<=4".into(),
             "for lc+lp>4 liblzma cannot arbitrate; reference encoder/decoder round trip + interpret only".into(),
-            "match distances above 2^22 (quick) / 2^26 (thorough) are not reached on the accepting path".into(),
+            "match distances above 2^22 (quick) / 2^28 (thorough, one case) are not reached on the accepting path".into(),
         ],
         families: vec![
             Family { name: "corners", count: 84 * 8, priority: true, enumerated: true, run: fam_corners },
